@@ -63,6 +63,13 @@ class _PokTranslator(_util.OverrideableDataDesc):
         self.func = func
         self.posoarg_names = set(posoargs)
         self.kwoarg_names = set(kwoargs)
+        if kwargs.get('original') is not None:
+            # func is ``original.func`` bound to an instance: the parameter
+            # that received the instance no longer exists
+            present = set(
+                _specifiers.forged_signature(func, auto=False).parameters)
+            self.posoarg_names &= present
+            self.kwoarg_names &= present
         if isinstance(func, _PokTranslator):
             self._merge_other(func)
         self._prepare()
@@ -268,8 +275,12 @@ def _posoargs_end(end, _posoargs, func, *args, **kwargs):
         elif param.kind != param.POSITIONAL_ONLY:
             break # no more POKs now
     if not found:
-        raise ValueError('{0!r} not found in {1.__name__}{2}'.format(
-            end, func, sig))
+        if kwargs.get('original') is None:
+            raise ValueError('{0!r} not found in {1.__name__}{2}'.format(
+                end, func, sig))
+        # func was bound to an instance and ``end`` named the parameter
+        # that received it: nothing after it was to be converted
+        posoarg_names = set(_posoargs).intersection(p.name for p in sig)
     return _PokTranslator(
         func, posoargs=posoarg_names,
         get=partial(_posoargs_end, end, _posoargs))
